@@ -223,9 +223,9 @@ inline Fate forked(const std::function<void()> &fn, double timeout_s = 60.0, boo
     absorb(buf);
     Fate f; f.text = err.size() > 1500 ? err.substr(0, 1500) : err;
     if (WIFSIGNALED(st)) { f.kind = WTERMSIG(st) == SIGALRM ? Fate::TIMEOUT : Fate::SIGNALED; f.code = WTERMSIG(st); }
-    if (f.kind == Fate::TIMEOUT && !strict_timeout && elapsed() > S().deadline_s) { S().deadline_hit = true; S().exhaustive = false; f.kind = Fate::RETURNED; f.code = 0; stat_sum("children_cut_by_deadline", 1); }
     else if (WIFEXITED(st) && WEXITSTATUS(st) != 0) { f.kind = Fate::EXITED; f.code = WEXITSTATUS(st); }
     else { f.kind = Fate::RETURNED; f.code = 0; }
+    if (f.kind == Fate::TIMEOUT && !strict_timeout && elapsed() > S().deadline_s) { S().deadline_hit = true; S().exhaustive = false; f.kind = Fate::RETURNED; f.code = 0; stat_sum("children_cut_by_deadline", 1); }
     return f;
 }
 inline std::string fate_str(const Fate &f) {
